@@ -42,8 +42,14 @@ func (ir *inputReader) getContents(offset *int64, line *int) string {
 	for offset != nil && *offset > bufSize*3/4 {
 		n, err := io.Copy(&buf,
 			io.LimitReader(ir.rs, min(bufSize, *offset-bufSize/4)))
+		if b := buf.Bytes(); n > 1 && b[n-1] == '\r' {
+			// CR can be followed by LF in the next chunk
+			if _, err := ir.rs.Seek(-1, io.SeekCurrent); err == nil {
+				n--
+			}
+		}
 		*offset -= n
-		*line += bytes.Count(buf.Bytes(), []byte{'\n'})
+		*line += countNewlines(buf.Bytes()[:n])
 		buf.Reset()
 		if err != nil || n == 0 {
 			break
@@ -57,6 +63,17 @@ func (ir *inputReader) getContents(offset *int64, line *int) string {
 	}
 	_, _ = io.Copy(&buf, r)
 	return buf.String()
+}
+
+// countNewlines counts the line terminators (LF, CRLF and CR) just like
+// stringScanner does. The bytes should not end with CR.
+func countNewlines(b []byte) (n int) {
+	for i, c := range b {
+		if c == '\n' || c == '\r' && (i+1 == len(b) || b[i+1] != '\n') {
+			n++
+		}
+	}
+	return
 }
 
 type inputIter interface {
@@ -109,8 +126,11 @@ func (i *jsonInputIter) Next() (any, bool) {
 	if buf := i.ir.buf; buf != nil && buf.Len() >= 16*1024 {
 		// discard the consumed bytes only since the decoder reads ahead
 		n := min(int(i.dec.InputOffset()-i.offset), buf.Len())
+		if n > 0 && buf.Bytes()[n-1] == '\r' {
+			n-- // CR can be followed by LF
+		}
 		i.offset += int64(n)
-		i.line += bytes.Count(buf.Next(n), []byte{'\n'})
+		i.line += countNewlines(buf.Next(n))
 	}
 	return v, true
 }
